@@ -27,6 +27,7 @@ import (
 type ReplayResult struct {
 	Reproduced bool              `json:"reproduced"`
 	Reason     string            `json:"reason,omitempty"`
+	Candidate  string            `json:"model_kind,omitempty"`
 	Inputs     map[string]string `json:"inputs,omitempty"`
 	TestFile   string            `json:"test_file,omitempty"`
 	TestSource string            `json:"test_source,omitempty"`
@@ -239,6 +240,25 @@ func (ex *Exec) tryReplay(o *Obligation, _ string, repo string, dir string) *Rep
 			vals = parseGetValue(out)
 			got = true
 			break
+		}
+	}
+	if !got {
+		// candidate input from the quantifier-free part of the query (assumptions with quantifiers dropped);
+		// whether it really fails is decided by running it on the real code below
+		var rl []string
+		for _, l := range strings.Split(full, "\n") {
+			if strings.Contains(l, "(forall ") || strings.Contains(l, "(exists ") {
+				if !strings.HasPrefix(l, "(assert (not ") {
+					continue
+				}
+			}
+			rl = append(rl, l)
+		}
+		st, out, _ := runSolver(context.Background(), solvers[0], strings.Join(rl, "\n"), tmp, "replayqf", 10)
+		if st == "sat" {
+			vals = parseGetValue(out)
+			got = true
+			res.Candidate = "quantifier-free candidate (assumptions with quantifiers dropped)"
 		}
 	}
 	if !got {
